@@ -19,6 +19,7 @@
 package tx_pool
 
 import (
+	"errors"
 	"math"
 
 	"github.com/kardiachain/go-kardia/kai/events"
@@ -73,6 +74,11 @@ func NewReactor(config TxPoolConfig, txpool *TxPool) *Reactor {
 
 func (txR *Reactor) fetchTx(peer string, hashes []common.Hash) error {
 	p := txR.peers.Peer(p2p.ID(peer))
+	if p == nil {
+		// The peer was unregistered between the fetcher's decision and this call (RemovePeer unregisters
+		// before it tells the fetcher): report it, the fetcher drops the peer and reschedules the hashes.
+		return errors.New("unknown peer")
+	}
 	return p.RequestTxs(hashes)
 }
 
